@@ -145,7 +145,7 @@ func c07Start(c *core.Ctx, pkg *packages.Package) {
 
 func c07Edges(c *core.Ctx, pkg *packages.Package) {
 	info := pkg.TypesInfo
-	for _, e := range [][3]string{{"closeChildEdges", "n.outs", "Close"}, {"abortParentEdges", "n.ins", "Abort"}} {
+	for _, e := range [][3]string{{"closeChildEdges", ".outs", "Close"}, {"abortParentEdges", ".ins", "Abort"}} {
 		fn := c.Need("C07.edges", "", "node", e[0])
 		if fn == nil {
 			continue
@@ -219,7 +219,16 @@ func c07Edge(c *core.Ctx, pkg *packages.Package) {
 			if cc, ok := n.(*ast.CommClause); ok && cc.Comm != nil {
 				if as, ok := cc.Comm.(*ast.AssignStmt); ok && len(as.Lhs) == 2 && len(as.Rhs) == 1 {
 					if u, ok := as.Rhs[0].(*ast.UnaryExpr); ok && an.FieldSel(info, u.X, "channelEdge", "messages") {
-						okk = types.ExprString(as.Lhs[0]) == "m" && types.ExprString(as.Lhs[1]) == "ok" && as.Tok == token.ASSIGN
+						// assigned to the function's two named results, in order
+						var res []string
+						if fn.Decl.Type.Results != nil {
+							for _, f := range fn.Decl.Type.Results.List {
+								for _, nm := range f.Names {
+									res = append(res, nm.Name)
+								}
+							}
+						}
+						okk = len(res) == 2 && types.ExprString(as.Lhs[0]) == res[0] && types.ExprString(as.Lhs[1]) == res[1] && as.Tok == token.ASSIGN
 					}
 				}
 			}
@@ -308,7 +317,7 @@ func c07Stop(c *core.Ctx, pkg *packages.Package) {
 	c.Check(firstStop != token.NoPos && firstWait != token.NoPos && firstStop < firstWait, "C07.stop", "ExecutingTask.stop#stop-and-wait", fn.Decl.Pos(), "every node must be stopped (sources only end when their stop function runs) and then waited for (stop called %v, Wait called %v)", firstStop != token.NoPos, firstWait != token.NoPos)
 	c.Check(wgWait != token.NoPos && wgWait > lastWalk, "C07.stop", "ExecutingTask.stop#helpers", fn.Decl.Pos(), "stop must wait for the task's helper goroutines (et.wg.Wait) after the nodes")
 	if w := c.Need("C07.stop", "", "ExecutingTask", "walk"); w != nil {
-		c09LoopNoExitErrOK(c, "C07.stop", "ExecutingTask.walk", w, info, "et.nodes", "f")
+		c09LoopNoExitErrOK(c, "C07.stop", "ExecutingTask.walk", w, info, an.RecvVarName(w.Decl)+".nodes", an.ParamName(w.Decl.Type, 0))
 	}
 	// node.stop runs the stop function; node.Wait takes the run result once
 	if st := c.Need("C07.stop", "", "node", "stop"); st != nil {
@@ -412,7 +421,7 @@ func c07TM(c *core.Ctx, pkg *packages.Package) {
 			},
 			Classify: func(a an.Atom) (string, bool) {
 				switch {
-				case strings.HasSuffix(a.Key, ".tasks[id].1"):
+				case strings.HasSuffix(a.Key, ".tasks["+an.ParamName(fn.Decl.Type, 0)+"].1"):
 					return "running", false
 				case a.Op == token.EQL && strings.HasSuffix(a.L, ".Task.Type") && strings.HasSuffix(a.R, "StreamTask"):
 					return "stream", false
@@ -483,7 +492,7 @@ func c07TM(c *core.Ctx, pkg *packages.Package) {
 			return true
 		})
 		c.Check(drain != token.NoPos && stop != token.NoPos && drain < stop, "C07.tm", "TaskMaster.Close#drain-first", fn.Decl.Pos(), "Close must drain the forks (Drain) before it stops the tasks")
-		c09LoopNoExit(c, "C07.tm", "TaskMaster.Close#all-tasks", fn, info, "tm.tasks", "stopTask", nil)
+		c09LoopNoExit(c, "C07.tm", "TaskMaster.Close#all-tasks", fn, info, ".tasks", "stopTask", nil)
 	}
 	if fn := c.Need("C07.tm", "", "TaskMaster", "Drain"); fn != nil {
 		var wait, del token.Pos
@@ -501,7 +510,7 @@ func c07TM(c *core.Ctx, pkg *packages.Package) {
 			return true
 		})
 		c.Check(wait != token.NoPos && del != token.NoPos && wait < del, "C07.tm", "TaskMaster.Drain#wait-first", fn.Decl.Pos(), "Drain must wait for the fork goroutines to hand over what was written (waitForForks) before it closes the task edges")
-		c09LoopNoExit(c, "C07.tm", "TaskMaster.Drain#all-forks", fn, info, "tm.taskToForkKeys", "delFork", nil)
+		c09LoopNoExit(c, "C07.tm", "TaskMaster.Drain#all-forks", fn, info, ".taskToForkKeys", "delFork", nil)
 	}
 	if fn := c.Need("C07.tm", "", "TaskMaster", "DeleteTask"); fn != nil {
 		var stop, hooks token.Pos
@@ -521,7 +530,7 @@ func c07TM(c *core.Ctx, pkg *packages.Package) {
 		c.Check(stop != token.NoPos && hooks != token.NoPos && stop < hooks, "C07.tm", "TaskMaster.DeleteTask#stop-before-hooks", fn.Decl.Pos(), "DeleteTask must stop (drain) the task before it runs the delete hooks: the alert node's hook deletes its topic and handlers, and what the node still drains afterwards is collected into a topic without handlers — dropped silently")
 	}
 	if fn := c.Need("C07.tm", "", "TaskMaster", "StopTasks"); fn != nil {
-		c09LoopNoExit(c, "C07.tm", "TaskMaster.StopTasks#all-tasks", fn, info, "tm.tasks", "stopTask", nil)
+		c09LoopNoExit(c, "C07.tm", "TaskMaster.StopTasks#all-tasks", fn, info, ".tasks", "stopTask", nil)
 	}
 }
 
@@ -977,7 +986,7 @@ func c07Sink(c *core.Ctx, pkg *packages.Package) {
 		}
 	}
 	if fn := c.Need("C07.sink", "", "writeBuffer", "writeAll"); fn != nil {
-		c09LoopNoExit(c, "C07.sink", "writeBuffer.writeAll", fn, info, "w.buffer", "write", func(rs *ast.RangeStmt, call *ast.CallExpr) string {
+		c09LoopNoExit(c, "C07.sink", "writeBuffer.writeAll", fn, info, ".buffer", "write", func(rs *ast.RangeStmt, call *ast.CallExpr) string {
 			del := false
 			for _, st := range rs.Body.List {
 				if es, ok := st.(*ast.ExprStmt); ok {
